@@ -321,6 +321,16 @@ func (w *World) Send(i int, m Msg) Obs {
 		w.collect(&o)
 		return o
 	}
+	// a client that announced another id than its slot's (see the
+	// duplicate-id scenario) signs its messages with the id it announced
+	if s, ok := m["source"].(string); ok && s == fmt.Sprintf("c%d", i) && c.ID != s {
+		m2 := Msg{}
+		for k, v := range m {
+			m2[k] = v
+		}
+		m2["source"] = c.ID
+		m = m2
+	}
 	raw, err := json.Marshal(m)
 	if err != nil {
 		panic(err)
